@@ -233,7 +233,8 @@ def r04_3(ctx) -> None:
         slots.get("ciphertext") == {T[3], f"urlsafe_b64decode({T[3]})"} and slots.get("tag") == {T[4], f"urlsafe_b64decode({T[4]})"}
     eks = [n for n in fn_nodes(ext) if isinstance(n, ast.Assign) and norm(n.targets[0]).endswith(".encrypted_key") and norm(n.value) == f"urlsafe_b64decode({T[1]})"]
     # and the protected header is decoded from the first segment
-    hdr = [n for n in fn_nodes(ext) if isinstance(n, ast.Call) and norm(n.func) == "json_b64decode" and n.args and norm(n.args[0]) == T[0]]
+    hdr = [s_.node for s_ in eng.cg.calls_in(ext) if isinstance(s_.node, ast.Call) and s_.node.args and norm(s_.node.args[0]) == T[0]
+           and any(c_.short in ("util:json_b64decode", "rfc7515.compact:decode_header") for c_ in s_.callees)]
     okm = okm and bool(hdr)
     ctx.check(oke and bool(lens) and okm and bool(eks), "R04.3", ext, ext.node, "compact reader", "extract_compact does not read the five segments into the matching slots", "header, encrypted key, iv, ciphertext, tag",
               construct="compact reader order")
